@@ -93,7 +93,7 @@ def _is_ref_ty(ty):
     return ty.startswith('&') or ty.startswith('*')
 
 
-def place_is_owned(body, pl, bb, idx, depth=0):
+def place_is_owned(body, pl, bb, idx, depth=0, through=False):
     """The place denotes memory owned by a local of this body (no deref of a reference on the way,
     following single-definition reborrow temporaries)."""
     l = pl['local']
@@ -107,20 +107,23 @@ def place_is_owned(body, pl, bb, idx, depth=0):
             return False
         # the local's own storage -- unless the local is an iterator / guard built from a borrow (`IterMut`, `Enumerate<IterMut>`, ..):
         # then what it hands out lives where that borrow points
-        defs = body.defs().get(l, [])
+        defs = body.defs().get(l, []) if through else []   # `&mut it` as the receiver of a call is the local `it` itself
         if len(defs) == 1 and defs[0][1] == 'term' and depth <= 10:
             t = body.blocks[defs[0][0]]['term']
             if t['k'] == 'call' and Callee(t['func']).name in BORROW_THROUGH and t['args'] and \
                     t['args'][0]['k'] in ('copy', 'move') and not t['args'][0]['place']['proj']:
                 a0 = t['args'][0]['place']['local']
                 if _is_ref_ty(body.local_ty(a0)):
-                    return place_is_owned(body, {'local': a0, 'proj': [{'k': 'deref'}]}, defs[0][0], 'term', depth + 1)
-                return place_is_owned(body, {'local': a0, 'proj': []}, defs[0][0], 'term', depth + 1)
+                    return place_is_owned(body, {'local': a0, 'proj': [{'k': 'deref'}]}, defs[0][0], 'term', depth + 1, True)
+                return place_is_owned(body, {'local': a0, 'proj': []}, defs[0][0], 'term', depth + 1, True)
         if len(defs) == 1 and defs[0][1] != 'term' and depth <= 10:
             rv = body.blocks[defs[0][0]]['stmts'][defs[0][1]].get('rv', {})
-            if rv.get('k') == 'use' and rv['op']['k'] in ('copy', 'move') and not rv['op']['place']['proj'] and not pl['proj']:
-                # the iterator moved into the loop variable: same borrow
-                return place_is_owned(body, {'local': rv['op']['place']['local'], 'proj': []}, defs[0][0], defs[0][1], depth + 1)
+            if rv.get('k') in ('use', 'cast') and rv['op']['k'] in ('copy', 'move') and not rv['op']['place']['proj'] and not pl['proj']:
+                # the iterator moved into the loop variable / an unsizing cast of a reference: same borrow
+                return place_is_owned(body, {'local': rv['op']['place']['local'], 'proj': []}, defs[0][0], defs[0][1], depth + 1, True)
+            if rv.get('k') == 'ref' and not pl['proj']:
+                # a synthetic local (introduced by a normalisation pass, no declared type) that holds a reference
+                return place_is_owned(body, rv['place'], defs[0][0], defs[0][1], depth + 1, True)
         return True
     # deref of a local reference: look at what the reference points to
     defs = body.defs().get(l, [])
@@ -135,16 +138,16 @@ def place_is_owned(body, pl, bb, idx, depth=0):
                 t['args'][0]['k'] in ('copy', 'move') and not t['args'][0]['place']['proj']:
             a0 = t['args'][0]['place']['local']
             if _is_ref_ty(body.local_ty(a0)):
-                return place_is_owned(body, {'local': a0, 'proj': [{'k': 'deref'}]}, dbb, 'term', depth + 1)
-            return place_is_owned(body, {'local': a0, 'proj': []}, dbb, 'term', depth + 1)
+                return place_is_owned(body, {'local': a0, 'proj': [{'k': 'deref'}]}, dbb, 'term', depth + 1, True)
+            return place_is_owned(body, {'local': a0, 'proj': []}, dbb, 'term', depth + 1, True)
         return False
     rv = body.blocks[dbb]['stmts'][didx]['rv']
     if rv['k'] == 'ref':
-        return place_is_owned(body, rv['place'], dbb, didx, depth + 1)
-    if rv['k'] == 'use' and rv['op']['k'] in ('copy', 'move'):
+        return place_is_owned(body, rv['place'], dbb, didx, depth + 1, through)
+    if rv['k'] in ('use', 'cast') and rv['op']['k'] in ('copy', 'move'):
         inner = dict(rv['op']['place'])
         inner = {'local': inner['local'], 'proj': list(inner['proj']) + [{'k': 'deref'}]}
-        return place_is_owned(body, inner, dbb, didx, depth + 1)
+        return place_is_owned(body, inner, dbb, didx, depth + 1, through)
     return False
 
 
